@@ -1,0 +1,7 @@
+//go:build !verif
+
+package alloc
+
+// verifFailAlloc is a hook of the verification harness (build tag verif):
+// it lets the harness make an allocation fail.  Without the tag it never does.
+func verifFailAlloc(size int) error { return nil }
